@@ -137,12 +137,22 @@ func genApl(r *Rng, tier string) *Enc {
 	if df.Ncols() > 0 && r.Chance(12) {
 		// the frame has a history: Apply ran on it once, then a column was renamed (nothing remembered from the
 		// first call may leak into the recorded one)
-		guard(func() error {
-			dataframe.VerifApplyGate = nil
-			df.Apply(applyFn(0), axis)
-			old := Pick(r, df.ColumnNames())
-			return df.RenameColumn(old, old+"z")
-		})
+		// (under a deadline of its own: a warm-up call that never returns must not stall the run — the recorded call
+		// on the same frame then shows the hang)
+		dataframe.VerifApplyGate = nil
+		warm := make(chan struct{})
+		go func() {
+			guard(func() error { df.Apply(applyFn(0), axis); return nil })
+			close(warm)
+		}()
+		select {
+		case <-warm:
+			guard(func() error {
+				old := Pick(r, df.ColumnNames())
+				return df.RenameColumn(old, old+"z")
+			})
+		case <-time.After(10 * time.Second):
+		}
 	}
 	if axis == 0 && tag == 14 && n >= 2 && df.Ncols() >= 2 && r.Chance(50) {
 		// one column keeps exactly ONE non-nil cell, another keeps all of its cells
